@@ -14,6 +14,26 @@ from concurrent.futures import ThreadPoolExecutor
 from pathlib import Path
 
 VERIF = Path(__file__).resolve().parent.parent
+import threading
+import time
+_GIT_LOCK = threading.Lock()
+
+
+def add_worktree(wt):
+    """git worktree add is not safe to run concurrently: serialise and retry"""
+    for _ in range(6):
+        with _GIT_LOCK:
+            r = subprocess.run(["git", "-C", "/repo", "worktree", "add", "-q", "--detach", wt, "HEAD"], stdout=subprocess.PIPE, stderr=subprocess.STDOUT, text=True)
+        if r.returncode == 0 and os.path.isdir(wt):
+            return True
+        time.sleep(1.0)
+    return False
+
+
+def remove_worktree(wt):
+    with _GIT_LOCK:
+        subprocess.run(["git", "-C", "/repo", "worktree", "remove", "--force", wt], stdout=subprocess.PIPE, stderr=subprocess.STDOUT, text=True)
+
 
 
 def sh(cmd, **kw):
@@ -28,7 +48,8 @@ def claimed():
 def run_one(sid: str, props):
     d = VERIF / "seeded" / sid
     wt = f"/tmp/wt_rs_{sid}_{os.getpid()}"
-    sh(["git", "-C", "/repo", "worktree", "add", "-q", "--detach", wt, "HEAD"])
+    if not add_worktree(wt):
+        return (sid if "sid" in dir() else bid), {"error": "could not create a scratch worktree"}
     out = {}
     try:
         ap = sh(["git", "-C", wt, "apply", str(d / "patch.diff")])
@@ -47,7 +68,7 @@ def run_one(sid: str, props):
             if c.returncode != 0:
                 out[p] = {"exit": c.returncode, "findings": keys}
     finally:
-        sh(["git", "-C", "/repo", "worktree", "remove", "--force", wt])
+        remove_worktree(wt)
     return sid, out
 
 
